@@ -97,3 +97,44 @@ func verifH_C28_url_embeds_param() {
 	verifAssert(ParseDeviceCodeClientSecret(h) == m.DeviceCodeClientSecret, "device_code_client_secret recovered exactly (empty when absent)")
 	verifAssert(ParseUseIDTokenAsBearer(h) == m.UseIDTokenAsBearer, "use_id_token_as_bearer flag recovered")
 }
+
+// The same round trip with the admitted values decided by Validate() itself rather
+// than by the harness's copy of its alphabet: whatever the validator lets through
+// must come back from the header unchanged.
+//
+//verif:bound one of the four credential fields is ANY string of 1..2 (thorough 1..3) printable ASCII bytes (0x20..0x7e: quotes, backslashes, commas, spaces, '=' included) that the real Validate() accepts, the other three are fixed valid values or absent; fixed metadata URL
+func verifH_C28_validated_values_roundtrip() {
+	m := &OAuthResourceMetadata{Resource: "https://h/", AuthorizationServers: []string{"https://as/"}}
+	n := 1 + verifChoice("value.len", verifC28MaxField())
+	v := verifNondetString("value", n)
+	verifAssume(verifAllInSet(v, "\x20\x7e"))
+	others := verifNondetBool("others_present")
+	fill := func(p *string) {
+		if others {
+			*p = "x1"
+		}
+	}
+	fill(&m.ClientID)
+	fill(&m.ClientSecret)
+	fill(&m.DeviceCodeClientID)
+	fill(&m.DeviceCodeClientSecret)
+	which := verifChoice("field", 4)
+	switch which {
+	case 0:
+		m.ClientID = v
+	case 1:
+		m.ClientSecret = v
+	case 2:
+		m.DeviceCodeClientID = v
+	default:
+		m.DeviceCodeClientSecret = v
+	}
+	verifAssume(m.Validate() == nil)
+	verifReach("validated")
+	h := buildWWWAuthenticate("https://h/meta", m)
+	verifAssert(ParseResourceMetadataURL(h) == "https://h/meta", "resource_metadata URL recovered exactly")
+	verifAssert(ParseClientID(h) == m.ClientID, "client_id recovered exactly, for every value the validator admits")
+	verifAssert(ParseClientSecret(h) == m.ClientSecret, "client_secret recovered exactly, for every value the validator admits")
+	verifAssert(ParseDeviceCodeClientID(h) == m.DeviceCodeClientID, "device_code_client_id recovered exactly, for every value the validator admits")
+	verifAssert(ParseDeviceCodeClientSecret(h) == m.DeviceCodeClientSecret, "device_code_client_secret recovered exactly, for every value the validator admits")
+}
